@@ -305,6 +305,41 @@ def make_value_ctl(tag, n):
     return q
 
 
+LONG_POS = {
+    "dense": list(range(0, 100)),
+    "dense2": list(range(100, 132)),
+    "pow2": [254, 255, 256, 257, 511, 512, 513, 1023, 1024, 1025, 2047, 2048, 4095, 4096, 4097, 8191, 8192, 8193],
+    "big": [16383, 16384, 32767, 32768, 65535, 65536, 65537, 131072],
+}
+LONG_TAILS = [0, 1, 2, 3, 4, 8, 70]
+
+
+def make_value_long(tag, positions, olds=(), tails=(0, 3), fillers=1):
+    """long values: p filler characters, one fully symbolic character, t filler characters; p and t are solver integers
+    indexing the listed values (realised value by value: the filler stays concrete, only the one character forks)"""
+    def q(p: int, t: int, o: int, filler: bool):
+        assume(0 <= o < 0x110000 and not 0xD800 <= o <= 0xDFFF)
+        assume(0 <= p < len(positions) and 0 <= t < len(tails))
+        pp, tt = positions[p], tails[t]          # indexing a list by a solver integer: one path per element
+        assume(filler or fillers > 1)
+        fill = "a" if filler else "\u00e9"
+        v = fill * pp + chr(o) + fill * tt
+        bad = is_ctl(o)
+        r, name, exc = offer(tag, v, olds)
+        if exc is not None:
+            cover("rejected" if bad else "clean-value-refused")
+            return leak_fault(r)
+        unused = REF_CALL[tag] == "setdefault" and len(olds) > 0
+        if bad and not unused:
+            return "%s (header holding %r) accepted a value of %d characters with %r at index %d" % (tag, olds, len(v), chr(o), pp)
+        cover("accepted")
+        got = [e for n, e in r.headerlist if n == name]
+        if not unused and (not got or len(got[-1]) != len(v.encode("utf8"))):
+            return "%s: value of %d characters emitted as %r" % (tag, len(v), got)
+        return None
+    return q
+
+
 class Texty:
     def __init__(self, text):
         self.text = text
@@ -653,6 +688,18 @@ def queries(tier):
                          % (tag, olds, nv, anytext), timeout=100 if not T else 300,
                          expect_cover=["rejected", "accepted", "accepted-non-ascii"], family="value",
                          config={"entry": tag, "holds": list(olds)}))
+    for tag, olds in ([("setitem", ()), ("append", ("old",)), ("ctor-kw", ())] if not T else
+                      [(t, ()) for t in ENTRIES] + [("append", ("old1", "old2")), ("setdefault", ())]):
+        for rng in (["dense"] if not T and tag != "setitem" else ["dense", "pow2"] if not T else ["dense", "dense2", "pow2", "big"]):
+            tails = (3,) if not T else tuple(LONG_TAILS)
+            out.append(Q("value-long/%s%s/%s" % (tag, len(olds) or "", rng),
+                         make_value_long(tag, LONG_POS[rng], olds, tails, 2 if T else 1),
+                         "entry point %s%s; value = p filler characters (%s) + one fully symbolic character (any code "
+                         "point but lone surrogates) + t filler characters, p in %s, t in %r"
+                         % (tag, " on a header holding %r" % (olds,) if olds else "", "'a' or U+00E9" if T else "'a'",
+                            "0..99" if rng == "dense" else "100..131" if rng == "dense2" else LONG_POS[rng], tails),
+                         timeout=500 if not T else 900, expect_cover=["rejected", "accepted"], family="value-long",
+                         config={"entry": tag, "positions": rng}))
     nc = 5 if not T else 6
     out.append(Q("value-ctl/setitem", make_value_ctl("setitem", nc),
                  "entry point setitem; value = fully symbolic str (any code point), len <= %d, CR, LF or NUL at one or more positions "
